@@ -414,7 +414,7 @@ def fmode_witnesses(module, name, fn, clauses, budget_s=150):
 
     out = []
     t_end = time.time() + budget_s
-    want = {c.split(":", 1)[-1] for c in clauses}
+    want = None if clauses is None else {c.split(":", 1)[-1] for c in clauses}  # None: every clause
 
     class H:
         def run(self, c):
@@ -458,7 +458,7 @@ def fmode_witnesses(module, name, fn, clauses, budget_s=150):
             seen += 1
             I = c.notes["I"]
             for cname, term in obl:
-                if cname not in want or time.time() > t_end:
+                if (want is not None and cname not in want) or time.time() > t_end:
                     continue
                 t = z3.simplify(_as_term(term))
                 if z3.is_true(t):
@@ -494,7 +494,7 @@ def fmode_witnesses(module, name, fn, clauses, budget_s=150):
     return out
 
 
-def candidate_search(module, name, fn, witnesses, max_runs=6000):
+def candidate_search(module, name, fn, witnesses, max_runs=6000, max_witnesses=4):
     """After an R-mode `sat` (an over-approximation) look for a concrete input that really fails:
     the lemma is run on concrete candidates derived from the solver's models (neighbours, range
     limits, sweeps in steps of 10^k).  This only ever ADDS candidates for the concrete replay - a
@@ -518,7 +518,7 @@ def candidate_search(module, name, fn, witnesses, max_runs=6000):
 
     out, runs, seen = [], 0, set()
     found = set()
-    for w in witnesses[:4]:
+    for w in witnesses[:max_witnesses]:
         base = dict(w["witness"]["values"])
         run(base)
         for nm, (lo, hi) in list(ranges.items()):
@@ -546,6 +546,42 @@ def candidate_search(module, name, fn, witnesses, max_runs=6000):
                         out.append({"clause": f"{name}:{b}" if not b.startswith("raised:") else w["clause"], "witness": {"module": module, "lemma": name, "rmode": True, "values": vals},
                                     "info": {"found_by": "concrete candidate search seeded by the R-mode models"}})
     return out
+
+
+def stall_candidates(module, name, fn):
+    """The R-mode proof of a lemma stalled and produced no model.  Seed `candidate_search` with one base
+    assignment per value of the lemma's (first) `choose` - every other input at the low end of its range -
+    so that the sweeps in steps of 10^k still run.  Candidates only; each one is replayed on the real code."""
+    nopt, ranges = {}, {}
+
+    class Probe(ConcreteInputs):
+        def choose(self, nm, options):
+            nopt.setdefault(nm, len(options))
+            return super().choose(nm, options)
+
+        def int(self, nm, lo, hi):
+            ranges.setdefault(nm, (lo, hi))
+            return super().int(nm, lo, hi)
+
+    chooses = [{}]
+    for k in range(4):  # one probe per value of the first choose, to learn the integer inputs of each mode
+        try:
+            fn(Probe({nm: k for nm in list(nopt)[:1]}, rmode=True))
+        except Exception:  # the all-low-end input may already fail; the sweep below will report it
+            pass
+        if not nopt or k + 1 >= list(nopt.values())[0]:
+            break
+    for nm, n in list(nopt.items())[:1]:
+        chooses = [{nm: k} for k in range(n)]
+    profiles = [lambda lo, hi: hi, lambda lo, hi: hi - 1, lambda lo, hi: lo + (hi - lo) // 2, lambda lo, hi: lo + (hi - lo) // 3, lambda lo, hi: lo]
+    bases = []
+    for ch in chooses:
+        for pf in profiles:
+            b = dict(ch)
+            b.update({nm: pf(lo, hi) for nm, (lo, hi) in ranges.items()})
+            bases.append(b)
+    wit = [{"clause": f"{name}:stalled", "witness": {"module": module, "lemma": name, "rmode": True, "values": b}} for b in bases[:20]]
+    return candidate_search(module, name, fn, wit, max_runs=20000, max_witnesses=20)
 
 
 def _as_term(x):
@@ -616,6 +652,13 @@ def task_lemma(args):
     t0 = time.time()
     explore(h, max_paths=opts.get("max_paths", 4000), stats=st, hints=opts.get("hints", ()), range_bound=opts.get("range_bound", 3),
             deadline=t0 + opts.get("seconds", 120))
+    if rmode and st.capped and not st.cex and not opts.get("no_fmode"):
+        # the R-mode proof stalled (typically: float arithmetic appeared where the unchanged code has none): before more
+        # solver time is spent, sweep concrete candidates; each is replayed on the real code before it is reported
+        try:
+            st.cex.extend(stall_candidates(module, name, fn))
+        except Exception:  # best effort
+            pass
     if st.capped and st.paths < opts.get("max_paths", 4000) and not st.cex:
         # the TIME cap was hit: z3's effort on the same query varies between processes (a lemma that normally takes two
         # seconds was once seen to exceed two minutes).  One more attempt with another solver seed and three times the
@@ -645,6 +688,16 @@ def task_lemma(args):
             except Exception:  # the search is best effort
                 extra = []
         st.cex.extend(extra)
+    if rmode and st.capped and not st.cex and not opts.get("no_fmode"):
+        # the R-mode proof stalled (typically: float arithmetic appeared where the unchanged code has none).  Before the
+        # lemma is reported inconclusive, search exact floating-point witnesses for every clause; each candidate is replayed
+        # on the real code, so this can only turn an inconclusive into a reproduced violation, never raise a false alarm.
+        try:
+            st.cex.extend(stall_candidates(module, name, fn))
+            if not st.cex:
+                st.cex.extend(fmode_witnesses(module, name, fn, None))
+        except Exception:  # best effort
+            pass
     return {"lemma": name, "stats": st.to_json(), "wall": round(time.time() - t0, 2)}
 
 
